@@ -566,6 +566,13 @@ func universal(sc *Scn, x *vrt.Sched, w *World) []Finding {
 		for _, f := range got {
 			if !contains(wrote, f) {
 				add("C05", "the client receives a frame no handler wrote (torn or merged frames)", fmt.Sprintf("client %s: % x", c.Name, trunc(f)))
+				if c.Name != "faulty" && hasProp(sc, "C07") {
+					for _, wr := range w.Writes {
+						if clientOfMsg(wr.MsgID) != ci && bytes.Equal(wr.Frame, f) {
+							add("C07", "a connection receives a response that was written for another connection", fmt.Sprintf("client %s receives the answer to message %d", c.Name, wr.MsgID))
+						}
+					}
+				}
 			}
 		}
 		if dup := duplicate(got, wrote); dup != nil {
